@@ -105,6 +105,46 @@ def expr_layer(quick_budget=4, thorough_budget=5):
     return run
 
 
+def api_layer(pid, quick_s=6, thorough_s=90):
+    """Bounded API-level stand-in (runtime/api_checks.py): random small cases on the real library vs a
+    reference computed from the property statement.  Never counted as proved."""
+    import json as _json
+
+    def run(tier, seed, run_native):
+        budget = thorough_s if tier == "thorough" else quick_s
+        rc, out, err = run_native(["-m", "runtime.api_checks", pid, str(budget), str(seed)], timeout=budget * 3 + 60)
+        try:
+            res = _json.loads(out.strip().splitlines()[-1])
+        except Exception:
+            return {"what": f"{pid} api layer", "error": (err or out)[-400:], "violations": []}
+        r = {"what": f"{pid} API layer: random small cases on the real library vs a reference written from the property (bounded, not a proof)",
+             "bound": "2-4 states, 1-4 events, <= 7 transitions, <= 3 listeners/targets, walks of 4 steps", "evaluations": res["cases"],
+             "distinct": res["cases"], "violations": []}
+        if res.get("violation"):
+            r["violations"].append({"name": f"bounded:{pid}:api-disagrees-with-reference", "replay": res.get("replay"),
+                                    "difference": res["violation"]})
+        return r
+    return run
+
+
+def witnesses(pid, names):
+    """Recorded witnesses of known findings are replayed on every run: a witness that still fails
+    is reported under the obligation name `witness:<name>` (matched by known_findings.jsonl)."""
+    import os
+
+    def run(tier, seed, run_native):
+        r = {"what": "replay of recorded witnesses", "bound": f"{len(names)} scripts", "evaluations": len(names), "distinct": len(names), "violations": []}
+        for nm in names:
+            rc, out, err = run_native([os.path.join("witness", nm + ".py")], timeout=120)
+            if rc == 1:
+                r["violations"].append({"name": f"witness:{nm}", "replay": os.path.join("/verif/witness", nm + ".py"),
+                                        "difference": out.strip()[-300:]})
+            elif rc != 0:
+                r["violations"].append({"name": f"witness-crashed:{nm}", "replay": None, "difference": (err or out)[-300:]})
+        return r
+    return run
+
+
 def _scans_engine():
     from . import scans
     return scans.scan_state_field_writers() + scans.scan_queue_mutators() + scans.scan_lock_operations()
@@ -122,7 +162,19 @@ PROPERTIES = {
         "bounded": [scenario_layer("C05")], "search": scenario_search("C05")},
     "C10": {"scans": [_scans_engine], "bounded": [scenario_layer("C10")], "search": scenario_search("C10")},
     "C11": {"bounded": [scenario_layer("C11")], "search": scenario_search("C11")},
-    "C13": {},
+    "C13": {"bounded": [api_layer("C13")], "assumptions": [
+        "TransitionList.unique_events, StateMachine.events / allowed_events and bind_events_to are NOT under contract (the "
+        "ordered-dedup invariant did not discharge in the time budget): covered by the bounded API layer only; send, "
+        "Event.__call__ and Event.__get__ are proved"]},
+    "C12": {"bounded": [api_layer("C12"), witnesses("C12", ["C12_late_async_listener", "C12_reattach_duplicates_expression_guard"])],
+            "assumptions": ["Listeners.search_name / resolve / build and StateMachine._register_callbacks / add_listener are not under "
+                            "contract yet: the bounded API layer stands in; the registry/executor/wrapper chain they feed is proved (C01, C02)"]},
+    "C15": {"bounded": [api_layer("C15"), witnesses("C15", ["C15_any_skips_later_states"])],
+            "assumptions": ["builders (to / from_ / itself / any, |, add_transitions, Events.add, factory.add_*, States.from_enum) are not under "
+                            "contract yet: the bounded API layer (all renderings of random small abstract machines) stands in"]},
+    "C16": {"bounded": [api_layer("C16"), witnesses("C16", ["C16_subclass_changes_base", "C07_signature_cache_key"])],
+            "scans": [lambda: __import__("checker.scans", fromlist=["x"]).scan_ownership()],
+            "assumptions": ["ownership table (checker/scans.py) is part of the contract: every heap write site in the package is classified"]},
     "C07": {"lemmas": [lambda: __import__("contracts.signature", fromlist=["x"]).scan_signature_cache_key()],
             "assumptions": ["inspect.Signature validity (kind order, distinct names) as a precondition of bind_expected",
                             "inspect.BoundArguments.args/.kwargs (how a binding is turned into a call) are CPython's",
